@@ -211,6 +211,15 @@ Theorem C01_status_cacheable_final : forall cmds k s caller cur rine rp d,
 Proof. exact cacheable_final. Qed.
 Print Assumptions C01_status_cacheable_final.
 
+(* (A') with the TTL hypothesis as a discipline on the command sequence: every prewrite / pessimistic lock request carries a
+   positive TTL (invariant: every lock in the store has one) *)
+Theorem C01_status_cacheable_final_disc : forall cmds k s caller cur rine rp d,
+  oracle_ts (cmds ++ [CheckTxnStatus k s caller cur rine rp]) = true -> ttl_discipline cmds = true ->
+  determined (snd (step (run cmds) (CheckTxnStatus k s caller cur rine rp))) = Some d ->
+  record_is (run (cmds ++ [CheckTxnStatus k s caller cur rine rp])) k s d = true.
+Proof. exact cacheable_final_disc. Qed.
+Print Assumptions C01_status_cacheable_final_disc.
+
 (* (B) the memoised answer remains the store's answer: after any further commands (no GC over the start ts, no destroyed
    range) a status check of that transaction changes nothing and answers the same determined status *)
 Theorem C01_memo_agrees : forall a b k s d caller cur rine rp,
@@ -364,7 +373,8 @@ Example ex_status_final :
   let c := CheckTxnStatus 1 (T 1) (T 5) (T 5) true false in
   snd (step (run (firstn 2 ex_cmds)) c) = RStatus 0 (T 3) ANoAction
   /\ determined (snd (step (run (firstn 2 ex_cmds)) c)) = Some (DCommitted (T 3))
-  /\ oracle_ts (firstn 2 ex_cmds ++ [c]) = true /\ record_is (run (firstn 2 ex_cmds)) 1 (T 1) (DCommitted (T 3)) = true
+  /\ oracle_ts (firstn 2 ex_cmds ++ [c]) = true /\ ttl_discipline ex_cmds = true
+  /\ record_is (run (firstn 2 ex_cmds)) 1 (T 1) (DCommitted (T 3)) = true
   /\ record_is (run ex_cmds) 1 (T 1) (DCommitted (T 3)) = true.
 Proof. vm_compute. repeat split. Qed.
 (* ... a LockNotExistDoNothing answer (pessimistic primary lock not there yet) is not: the transaction commits later.
@@ -384,7 +394,7 @@ Proof. vm_compute. repeat split. Qed.
 Definition ex_ttl0 : list cmd :=
   [ Prewrite [mkMut MPut 1 17 AsNone false] 1 (T 1) 0 0 0 false; CheckTxnStatus 1 (T 1) (T 1 + 5) (T 1 + 5) true false;
     Commit [1] (T 1) (T 3) ].
-Example ex_ttl0_not_final : oracle_ts ex_ttl0 = true
+Example ex_ttl0_not_final : oracle_ts ex_ttl0 = true /\ ttl_discipline ex_ttl0 = false
   /\ determined (snd (step (run (firstn 1 ex_ttl0)) (nth 1 ex_ttl0 (GC 0 0 0)))) = Some DRolledBack
   /\ record_is (run (firstn 2 ex_ttl0)) 1 (T 1) DRolledBack = false
   /\ record_is (run ex_ttl0) 1 (T 1) (DCommitted (T 3)) = true.
